@@ -366,6 +366,8 @@ import curtsies.input  # noqa: E402
 import curtsies.termhelpers  # noqa: E402
 import curtsies.window  # noqa: E402
 import curtsies.events  # noqa: E402
+import curtsies.formatstring  # noqa: E402
+import curtsies.formatstringarray  # noqa: E402
 
 _cf = _os.path.realpath(curtsies.__file__)
 if not _cf.startswith(_os.path.realpath(REPO) + _os.sep):
@@ -433,11 +435,23 @@ class _SysProxy:
         return getattr(sys, name)
 
 
+_FAKED = []
+
+
 def set_platform(platform):
     """sys.platform as seen from curtsies.input (the macOS branch of Input.__enter__); None restores"""
     if _REPO_SYS is None:
         return
     curtsies.input.sys = _REPO_SYS if platform in (None, sys.platform) else _SysProxy(platform)
+    # an interpreter whose sys.platform says darwin also has termios.VDSUSP (same index there as VSUSP + 1 here)
+    if platform == "darwin" and not hasattr(_termios, "VDSUSP"):
+        _termios.VDSUSP = _termios.VSUSP + 1
+        _FAKED.append("VDSUSP")
+    elif platform != "darwin" and _FAKED:
+        for n in _FAKED:
+            if hasattr(_termios, n):
+                delattr(_termios, n)
+        del _FAKED[:]
 
 
 def _clear_library_caches():
@@ -461,6 +475,51 @@ def _clear_library_caches():
                         cc()
 
 
+_PLAIN = (type(None), bool, int, float, complex, str, bytes, tuple, frozenset)
+_MODSTATE = {}
+
+
+def _snapshot_module_state():
+    """plain module-level data of the package as it is right after import (hand-written memos live there)"""
+    import sys as _sys
+    for name, mod in list(_sys.modules.items()):
+        if mod is None or not (name == "curtsies" or name.startswith("curtsies.")):
+            continue
+        snap = {}
+        for k, v in vars(mod).items():
+            if k.startswith("__"):
+                continue
+            if isinstance(v, _PLAIN):
+                snap[k] = ("v", v)
+            elif type(v) in (list, dict, set):
+                snap[k] = ("c", v, type(v)(v))
+        _MODSTATE[name] = (mod, snap)
+
+
+def _restore_module_state():
+    """(see _clear_library_caches: no real process lives through several locales / platforms / kernels)"""
+    for name, (mod, snap) in _MODSTATE.items():
+        d = vars(mod)
+        for k, ent in snap.items():
+            cur = d.get(k, _MODSTATE)
+            if ent[0] == "v":
+                if cur is not ent[1] and not (cur == ent[1] and type(cur) is type(ent[1])):
+                    d[k] = ent[1]
+            else:
+                obj, copy = ent[1], ent[2]
+                if cur is not obj:
+                    d[k] = obj
+                if obj != copy:
+                    obj.clear()
+                    if isinstance(obj, list):
+                        obj.extend(copy)
+                    else:
+                        obj.update(copy)
+        for k in [k for k, v in d.items() if k not in snap and not k.startswith("__")
+                  and (isinstance(v, _PLAIN) or type(v) in (list, dict, set))]:
+            del d[k]
+
+
 def bind(world, kernel, encoding="utf-8", read_size=None, locale_name=None):
     """Make `world` the target of every seam call (one run at a time per process).  locale_name: the
     spelling locale.getpreferredencoding() answers with (real locales say 'UTF-8', 'ANSI_X3.4-1968', ...)"""
@@ -468,6 +527,7 @@ def bind(world, kernel, encoding="utf-8", read_size=None, locale_name=None):
     _W, _K = world, kernel
     _encoding[0] = locale_name or encoding
     _clear_library_caches()
+    _restore_module_state()
     if _REPO_READ_SIZE is not None:
         # the read-size knob (only values the module's own assert allows); absent -> knob not applied
         curtsies.input.READ_SIZE = read_size if read_size is not None else _REPO_READ_SIZE
@@ -483,3 +543,13 @@ def unbind():
 
 def repo_read_size():
     return _REPO_READ_SIZE
+
+
+_snapshot_module_state()
+
+# The cyclic garbage collector runs whenever an allocation counter crosses a threshold - at moments that depend
+# on everything the process has allocated before.  Finalizers (weakref.finalize, __del__) of library objects
+# would then fire at different points of a run in different processes: a source of nondeterminism like a clock.
+# It is switched off; setup.finish() (and the checks, at defined points) collect explicitly.
+import gc as _gc  # noqa: E402
+_gc.disable()
